@@ -287,6 +287,24 @@ class ClassParser(BaseParser):
 
         return setter
 
+    def make_property_setter(self, field: ParserField):
+        prop = field.property
+
+        def setter(_obj_self: object, value):
+            if self.options.immutable or field.immutable:
+                raise exc.UpdateError(
+                    f"{self.name}: "
+                    f"Attempt to set immutable attribute: [{repr(field.attname)}]"
+                )
+            context = self.options.make_context(_obj_self.__class__, force_error=True)
+            value = field.parse_value(value, context=context)
+            if unprovided(value):
+                return
+            prop.fset(_obj_self, value)
+
+        setter.__name__ = field.attname
+        return property(fget=prop.fget, fset=setter, fdel=prop.fdel, doc=prop.__doc__)
+
     def make_deleter(self, field: ParserField, post_delattr=None):
         def deleter(_obj_self: object):
             if self.options.immutable or field.immutable:
@@ -342,6 +360,10 @@ class ClassParser(BaseParser):
 
         for key, field in self.fields.items():
             if field.property:
+                if not setter and field.property.fset:
+                    # a property with a setter is a field that takes input: an assignment is parsed (and refused for
+                    # an immutable field) before the declared setter gets the value, as Schema does with its hooks
+                    setattr(self.obj, field.attname, self.make_property_setter(field))
                 continue
 
             if getter:
